@@ -224,6 +224,8 @@ pub mod resolv;
 pub mod stelline;
 pub mod tsig;
 pub mod utils;
+#[cfg(domain_verif)]
+pub mod verif_trace;
 pub mod zonefile;
 pub mod zonetree;
 
